@@ -127,6 +127,24 @@ def run(ctx):
     ctx.check(len(eqc) == 2 and len({argsig(c) for c in eqc}) == 1, "R12.2", "Record.__eq__:projection",
               "__eq__ does not compare self._pack(A) with other._pack(A) for one argument list A", eq,
               f"compares _pack{argsig(eqc[0]) if eqc else ''} of both operands")
+    # equality is decided by the projection alone: every other return of __eq__ is the non-Record refusal
+    from .. import logic as _lg
+    from ..core import expand_aliases as _ea, single_assign_aliases as _saa
+
+    ecfg = CFG(eq)
+    e_other = func_params(eq)[1]
+    e_al = _saa(eq)
+    for rt in [n for n in walk_no_nested(eq) if isinstance(n, ast.Return)]:
+        prem = _lg.facts_as_premises(ecfg.facts_at(ecfg.node_of(rt).id))
+        non_record = any(_lg.implies(prem, _lg.parse(f"not isinstance({e_other}, {cn})")) for cn in ("Record", "GroupedRecord", "(Record, GroupedRecord)"))
+        v = _ea(rt.value, e_al) if rt.value is not None else None
+        by_projection = isinstance(v, ast.Compare) and len(v.ops) == 1 and isinstance(v.ops[0], ast.Eq) and all(
+            isinstance(x, ast.Call) and isinstance(x.func, ast.Attribute) and x.func.attr == "_pack" for x in (v.left, v.comparators[0]))
+        shown = sorted(norm(e0) + ("" if p0 else " is false") for e0, p0 in prem)
+        ctx.check(non_record or by_projection, "R12.2", f"Record.__eq__:return {norm(rt.value)[:30] if rt.value is not None else ''}@{'/'.join(shown)[:50]}",
+                  f"__eq__ returns `{norm(rt.value) if rt.value is not None else None}` under {shown} without comparing the packed projections: records with the same descriptor "
+                  "(name and fields) and equal values can compare unequal (e.g. a rebuilt copy whose descriptor object is a different instance) while their hashes are equal", rt,
+                  "returns either the non-Record refusal or the comparison of both projections", key="R12.2:Record.__eq__:decided-outside-projection")
     ctx.check(len(hc) >= 1, "R12.2", "Record.__hash__:projection",
               "__hash__ is not computed from self._pack(...): equal records (by packed value) need not have equal hashes, and field "
               "values that define __eq__ without __hash__ make hash() raise", hs, "hash derives from self._pack(...)",
